@@ -40,7 +40,7 @@
   parameters (C15_history_fresh_twin), unfolding at any point uses the CURRENT parameters
   (C15_history_unfold_current, C15_history_folded_weights_current).
 
-  Fix round Q (fix ff4bdc9): §11 states the conversion on a DAG with ORDERED, n-ary input lists:
+  Fix round Q (fix 41c6274): §11 states the conversion on a DAG with ORDERED, n-ary input lists:
   the rewiring keeps every consumer's input order (C15_convert_input_order, C15_rewire_input_order)
   and, with the parameters carried over, every surviving node computes the source tensor for EVERY
   merge function of the ordered input list (C15_convert_graph_function, _output); the old failing
@@ -970,7 +970,7 @@ example : (unfoldLayers (fun _ => 1/2) (fun _ => [[7], [7], [7], [7]])
     = some [[[4], [5]], [[1], [1]], [[2], [1]]] := by decide +kernel
 
 
-/-! ### 11. `convert_to_folded_model` on a DAG with ORDERED input lists (fix round Q, fix ff4bdc9)
+/-! ### 11. `convert_to_folded_model` on a DAG with ORDERED input lists (fix round Q, fix 41c6274)
 
   The rewiring of `convert_to_folded_model` (also reached through
   `model_quantize(enable_bn_folding=True)`) used to feed a multi-input layer its inputs in the
@@ -1192,7 +1192,7 @@ theorem C15_convert_graph_output (g : OGraph) (hw : g.WF) (mode : FoldMode) (rs 
   · rw [redirect_kept _ _ hd, C15_convert_graph_function g hw mode rs x out ho hd]
     simp [carrier, hs]
 
-/-- INPUT ORDER (repaired code, fix ff4bdc9): in the returned model every layer has as many inputs
+/-- INPUT ORDER (repaired code, fix 41c6274): in the returned model every layer has as many inputs
     as in the source model, and position by position the input is the source input itself, or —
     when that was a removed batch norm — the conv in front of it.  Any arity, any DAG. -/
 theorem C15_convert_input_order (g : OGraph) (hw : g.WF) (mode : FoldMode) (k : ℕ) (hk : k < g.length) :
@@ -1256,7 +1256,7 @@ example : exOG.WF := by
       subst this
       exact ⟨exPlain, exBN, rfl, rfl, rfl, rfl, rfl, rfl⟩
 
-/-- regression witness of the repaired defect (fix ff4bdc9): the merge of the returned model reads
+/-- regression witness of the repaired defect (fix 41c6274): the merge of the returned model reads
     `[conv_a, conv_b]` (it read `[conv_b, conv_a]`), and with the parameters carried over the
     folded model computes the source model's 2 = 17 - 15 (it computed -2) -/
 theorem C15_rewire_input_order_fixed_witness :
